@@ -147,6 +147,7 @@ PLANS = {
             S("c12_connloss", 900, 27000),
             S("c12_resend", 900, 27000),
             S("c12_noretry", 700, 21000),
+            S("c12_mixed", 600, 18000),    # contexts with different resend times on one socket (scenarios/c12b_mixed.cc)
         ],
         "assumptions": [
             "liveness is checked as a bound after the last fault: reconnect back-off + connect completion + transfer "
